@@ -14,9 +14,11 @@ package c11
 // (Bare drops the resourcepart, ...), and jid.New on the replaced part.
 
 import (
+	"encoding/xml"
 	"fmt"
 	"strings"
 	"testing"
+	"unicode"
 	"unicode/utf8"
 
 	"pgregory.net/rapid"
@@ -36,9 +38,11 @@ const (
 	opWithLocal
 	opWithDomain
 	opWithResource
+	opDecodeAttr // UnmarshalXMLAttr into a copy of an existing (populated) value
+	opDecodeElem // UnmarshalXML into a copy of an existing (populated) value
 )
 
-var opNames = [...]string{"Bare()", "Domain()", "Copy()", "<Parse(String())>", "<New(parts)>", "WithLocal", "WithDomain", "WithResource"}
+var opNames = [...]string{"Bare()", "Domain()", "Copy()", "<Parse(String())>", "<New(parts)>", "WithLocal", "WithDomain", "WithResource", "<UnmarshalXMLAttr into a copy>", "<UnmarshalXML into a copy>"}
 
 type opSpec struct {
 	kind   opKind
@@ -59,6 +63,38 @@ type history struct {
 	log  []string
 	// for the non-trivial rule
 	chain, sibling, shrunk bool
+	decodedNear            bool // an encoding differing only in letter case from the held address was decoded
+}
+
+// decodeText derives the text to decode from the string form of the value held
+// (own) or of the first value of the history.
+func decodeText(mode, own, first string) string {
+	switch mode {
+	case "same":
+		return own
+	case "upper":
+		return strings.ToUpper(own)
+	case "lower":
+		return strings.ToLower(own)
+	case "swaplast":
+		rs := []rune(own)
+		for i := len(rs) - 1; i >= 0; i-- {
+			if u, l := unicode.ToUpper(rs[i]), unicode.ToLower(rs[i]); u != l {
+				if rs[i] == u {
+					rs[i] = l
+				} else {
+					rs[i] = u
+				}
+				break
+			}
+		}
+		return string(rs)
+	case "sigma":
+		return strings.NewReplacer("\u03c3", "\u03c2", "\u03c2", "\u03c3", "s", "\u017f", "k", "\u212a").Replace(own)
+	case "first":
+		return first
+	}
+	return mode // a literal
 }
 
 func (h *history) note(format string, args ...any) {
@@ -168,6 +204,38 @@ func (h *history) step(op opSpec) bool {
 				}
 			}
 		}
+	case opDecodeAttr, opDecodeElem:
+		// the encoding of an address, decoded into a variable that still holds
+		// another (often nearly the same) address: the variable then holds the
+		// address that was on the wire, and the value it held before is untouched
+		text := decodeText(op.arg, p.s, h.vals[0].snap.s)
+		h.note("v%d = %s(%q) into a copy of v%d", n, opNames[op.kind], text, ti)
+		holder := recv.j
+		if pn := ev.Guard(func() {
+			if op.kind == opDecodeAttr {
+				gerr = holder.UnmarshalXMLAttr(xml.Attr{Name: xml.Name{Local: "from"}, Value: text})
+			} else {
+				var sb strings.Builder
+				sb.WriteString("<jid>")
+				_ = xml.EscapeText(&sb, []byte(text))
+				sb.WriteString("</jid>")
+				d := xml.NewDecoder(strings.NewReader(sb.String()))
+				tok, err := d.Token()
+				if err != nil {
+					gerr = err
+					return
+				}
+				gerr = holder.UnmarshalXML(d, tok.(xml.StartElement))
+			}
+		}); pn != "" {
+			c.fail("decoding %q into a copy of v%d: %s", text, ti, pn)
+		}
+		got = holder
+		wj, werr := c.parse(text)
+		c.same(fmt.Sprintf("%s(%q) into a variable holding %v", opNames[op.kind], text, p), got, gerr, fmt.Sprintf("Parse(%q)", text), wj, werr)
+		if gerr == nil && text != p.s && strings.EqualFold(text, p.s) {
+			h.decodedNear = true
+		}
 	}
 	if gerr != nil {
 		h.note("   = error %v", gerr)
@@ -268,7 +336,7 @@ func genHistPart(t *rapid.T, r role) string {
 
 func genOp(t *rapid.T, nvals int) opSpec {
 	var op opSpec
-	switch k := rapid.IntRange(0, 19).Draw(t, "op"); {
+	switch k := rapid.IntRange(0, 20).Draw(t, "op"); {
 	case k < 4:
 		op.kind = opBare
 	case k < 6:
@@ -285,9 +353,15 @@ func genOp(t *rapid.T, nvals int) opSpec {
 	case k < 13:
 		op.kind = opWithDomain
 		op.arg = genHistPart(t, roleDomain)
-	default:
+	case k < 18:
 		op.kind = opWithResource
 		op.arg = genHistPart(t, roleResource)
+	default:
+		op.kind = opDecodeAttr
+		if rapid.IntRange(0, 2).Draw(t, "elem") == 0 {
+			op.kind = opDecodeElem
+		}
+		op.arg = rapid.SampledFrom([]string{"same", "upper", "lower", "swaplast", "swaplast", "sigma", "first", "juliet@example.net/Balcony", "not a@jid@"}).Draw(t, "decode")
 	}
 	// receiver: mostly a recent value (chains) or the same one again (siblings)
 	switch k := rapid.IntRange(0, 3).Draw(t, "recv"); k {
@@ -341,10 +415,13 @@ func TestC11History(t *testing.T) {
 			if h.sibling {
 				classes = append(classes, "hist-sibling-resources")
 			}
+			if h.decodedNear {
+				classes = append(classes, "hist-decoded-into-a-variable-holding-the-address-in-other-letter-case")
+			}
 			if len(h.vals) > 0 && len(h.vals[0].snap.l) < len(l) {
 				classes = append(classes, "hist-localpart-shrank")
 			}
-			ev.Case(h.chain || h.sibling, "hist|"+h.canon(), classes...)
+			ev.Case(h.chain || h.sibling || h.decodedNear, "hist|"+h.canon(), classes...)
 		}
 		defer rec()
 		h.start(how, j)
